@@ -29,6 +29,10 @@ type engine struct {
 	rng *lib.Rng
 	m   *lib.Model
 	rep *lib.Report
+
+	c38Parsers []histParser
+	c38Inputs  map[string][][]byte
+	genSeen    map[string]string // C39: generated private key → where it was generated
 }
 
 // ---- oracles (standard library / third party, called directly) ----
